@@ -970,6 +970,7 @@ def explore_under(fn, env_of, limit=4000, avoid=(), capture=(), reset_at=()):
     seen_states = set()
     undecided = set()
     captured = []
+    returned = []
     stack = [(0, {})]
     n = 0
 
@@ -1045,6 +1046,7 @@ def explore_under(fn, env_of, limit=4000, avoid=(), capture=(), reset_at=()):
             env_of.fired = False
         if t["k"] == "return":
             out.add(b)
+            returned.append((b, dict(st)))
             continue
         if t["k"] == "call":
             v = eval_term(call_origin(fn, t, 0, frozenset(), 40), env_of)
@@ -1084,6 +1086,7 @@ def explore_under(fn, env_of, limit=4000, avoid=(), capture=(), reset_at=()):
             stack.append((sx, st))
     explore_under.undecided = undecided
     explore_under.captured = captured
+    explore_under.returned = returned          # (return block, state after its statements)
     return out, visited
 
 
